@@ -58,7 +58,21 @@ impl Prop for P {
             Tier::Quick => prop_oneof![6 => recipe(3000, 4), 3 => recipe(50_000, 3), 1 => recipe(200_000, 2), 2 => crate::gen::data::recipe_wrap()].boxed(),
             Tier::Thorough => prop_oneof![5 => recipe(3000, 5), 3 => recipe(80_000, 4), 2 => recipe(1_000_000, 3), 3 => crate::gen::data::recipe_wrap()].boxed(),
         };
-        (data, config(), schedule(8)).prop_map(|(data, cfg, sched)| Case { data, cfg, sched }).boxed()
+        let general = (data, config(), schedule(8)).prop_map(|(data, cfg, sched)| Case { data, cfg, sched });
+        // "ring-end" family: low-entropy data (matches everywhere, also across the 32 KiB ring end), a first
+        // flushed call that misaligns the fast path's 4 KiB chunking, then a call boundary a few bytes
+        // past a multiple of 32768
+        use crate::gen::config::{Ctor, Step};
+        use crate::gen::data::Seg;
+        let ring_end = (1u32..=4095, 1u32..=3, 0u32..=12, prop_oneof![Just(2u8), Just(1u8), Just(3u8), Just(7u8)], prop_oneof![3 => Just(1i32), 1 => 2i32..=9], proptest::sample::select(vec![0i32, 0, 4, 1]), any::<bool>(), any::<u64>(), 1u8..=6, prop_oneof![Just(1u32 << 20), 1u32..=5000])
+            .prop_map(|(s1, k, delta, fl, level, strategy, zlib, seed, alpha, out)| {
+                let total = 32_768 * k + delta;
+                let n = total + 300 + (seed % 5000) as u32;
+                let seg = if seed & 1 == 0 { Seg::Alphabet { k: alpha, n, seed } } else { Seg::Text { n, seed } };
+                let steps = vec![Step { in_take: s1, out_size: out, flush: fl }, Step { in_take: total - s1.min(total), out_size: out, flush: 0 }];
+                Case { data: Recipe { segs: vec![seg], twice: false }, cfg: Config { ctor: Ctor::Flags, level, strategy, zlib, wbits: 15 }, sched: Schedule { steps, finish_out: vec![out] } }
+            });
+        prop_oneof![12 => general, 1 => ring_end].boxed()
     }
     fn check(case: &Case, cx: &mut Ctx) -> Check {
         let x = case.data.expand();
